@@ -56,7 +56,9 @@ def build(cfg, rng, tr):
       o['n_basis'] = 8 * d if cfg['opt'] == 'triplet_diffs' else None
   if name == 'RCA_Supervised':
     cap = int(sum(c // 2 for c in np.unique(tr['y'], return_counts=True)[1]))
-    o['n_chunks'] = min(6, cap)
+    # in range: enough chunked points for an invertible within-chunk covariance (n_chunks * (chunk_size - 1) >= d,
+    # otherwise RCA_Supervised itself warns that the transformation will contain NaN)
+    o['n_chunks'] = min(cap, max(6, d + 2))
   if name in ('SDML', 'SDML_Supervised'):
     # keep the graphical-lasso input positive definite (the stated quantifier): balance_param is
     # chosen from a norm bound that holds for ANY pair subset of the data
@@ -123,7 +125,7 @@ def gen_trace(recipe):
     else:
       # refit of the SAME object on data of another dimensionality (same parameters)
       if name == 'RCA_Supervised':
-        est.set_params(n_chunks=min(6, int(sum(c // 2 for c in np.unique(tr['y'], return_counts=True)[1]))))
+        est.set_params(n_chunks=min(int(sum(c // 2 for c in np.unique(tr['y'], return_counts=True)[1])), max(6, cfg['d'] + 2)))
       if name in ('SDML', 'SDML_Supervised'):
         _, o2 = build(cfg, np.random.default_rng(1), tr)
         est.set_params(balance_param=min(est.balance_param, o2['balance_param']))
